@@ -34,6 +34,10 @@ func canonPanics(out string) string {
 			parts[i] = "panic:slice-bounds"
 		case strings.Contains(p, "index out of range"):
 			parts[i] = "panic:index"
+		case p == "panic:panic" || strings.HasPrefix(p, "panic:match length") || strings.HasPrefix(p, "panic:match distance") ||
+			strings.HasPrefix(p, "panic:unsupported chunk type"):
+			// an explicit panic whose argument is built at run time (fmt.Errorf): the translation keeps no text
+			parts[i] = "panic:explicit"
 		}
 	}
 	return strings.Join(parts, "|")
